@@ -133,7 +133,8 @@ func (f *formatter) WriteDescription(s string) *formatter {
 	}
 
 	f.WriteString(`"""`)
-	ss := strings.Split(s, "\n")
+	// a block string can only contain its own delimiter in escaped form
+	ss := strings.Split(strings.ReplaceAll(s, `"""`, `\"""`), "\n")
 	f.WriteNewline()
 	for _, s := range ss {
 		f.WriteString(s).WriteNewline()
